@@ -709,6 +709,9 @@ func allold[T any](f func(p *T) bool) bool { return true }
 func allstrings(f func(s string) bool) bool { return true }
 func iterpos(s string) int { return 0 }
 func floatfinite(f float64) bool { return true }
+func lockacq[T any](p *T) int  { return 0 }
+func lockwacq[T any](p *T) int { return 0 }
+func lockheld[T any](p *T) int { return 0 }
 func pow2(k int) int { return 1 << uint(k) }
 func bigval(x *verifbig.Int) int { return int(x.Int64()) }
 func forall(lo, hi int, f func(i int) bool) bool {
